@@ -90,7 +90,11 @@ class Gen:
     def lit(self, t):
         r = self.r
         if t == "int":
-            v = r.choice([0, 1, 2, 3, 5, 7, 10, 12, 25, 100]) if r.random() < 0.8 else r.randint(0, 1000)
+            k = r.random()
+            # a few literals whose products leave the int range (int*int overflow itself is kept out by the
+            # reference; long-declared operands must be computed in 64 bits)
+            v = r.choice([0, 1, 2, 3, 5, 7, 10, 12, 25, 100]) if k < 0.75 else (
+                r.choice([46341, 65536, 100000, 70000]) if k > 0.95 else r.randint(0, 1000))
             return ("lit", "int", v)
         if t == "long":
             v = r.choice([0, 1, 2, 4, 9, 1000, 3000000000, 4294967296, 4294967297])
@@ -332,6 +336,15 @@ class Gen:
         e = self.expr(env, t, 3)
         if t == "long" and r.random() < 0.3:
             e = self.expr(env, "int", 3)   # int widens to long
+            env[name] = t
+            if r.random() < 0.6:
+                # ... and from then on the variable is 64-bit whatever it was initialised with
+                big = ("lit", "int", r.choice([65536, 100000, 2147483647]))
+                use = r.choice([("bin", "*", ("var", name, "long"), big, "long"),
+                                ("bin", "*", ("var", name, "long"), ("var", name, "long"), "long"),
+                                ("bin", "+", ("bin", "*", big, ("var", name, "long"), "long"), ("var", name, "long"), "long")])
+                self.coverage.add(("widened-long-use",))
+                return [("decl", t, name, e, final), ("echo", use, "long")]
         env[name] = t
         return ("decl", t, name, e, final)
 
